@@ -86,6 +86,7 @@ class World:
         self.B = [Blk(i, "k%d" % k, frozenset(ms), disable_inst_caching=True) for i, (k, ms) in enumerate(blks)]
         self.C = [Choice(i) for i in range(nchoices)]
         self.R = ["r%d" % i for i in range(nrestr)]
+        self.idmap = {id(p): p.i for p in self.P}
         self.ps = state.plan_state()
         self.marks = [0]
 
@@ -171,7 +172,8 @@ class World:
         return {
             "slots": {k: [p.i for p in v] for k, v in ps.state.slot_dict.items() if v},
             "limiters": {k: [b.i for b in v] for k, v in ps.state.limiters.items() if v},
-            "choices": sorted([p.i, c.i] for p, c in ps.pkg_choices.items()),
+            # pkg_choices is keyed by id(pkg) (fix 9b18cc1); unknown ids would be a defect
+            "choices": sorted([self.idmap.get(k, -1), c.i] for k, c in ps.pkg_choices.items()),
             "revb": {c.i: [b.i for b, _ in l] for c, l in ps.rev_blockers.items() if l},
             "refcnt": multiset(ps.blockers_refcnt),
             "vdb": multiset(ps.vdb_filter),
@@ -256,7 +258,7 @@ def gen_history(rng, w, n, contract=True):
             st = ["backref", rng.randrange(nc), rng.randrange(npk)]
         elif k < 0.43 and slotted:
             p = rng.choice(slotted)
-            c = ps.pkg_choices[p].i if (contract or rng.random() < 0.6) and p in ps.pkg_choices else rng.randrange(nc)
+            c = ps.pkg_choices[id(p)].i if (contract or rng.random() < 0.6) and id(p) in ps.pkg_choices else rng.randrange(nc)
             st = ["remove", c, p.i]
         elif k < 0.60 and slotted:
             old = rng.choice(slotted)
@@ -315,6 +317,8 @@ CORPUS = [
     # blocker shared by two choice points: reference counts survive remove + rollback
     [["add", 0, 0, False], ["add", 3, 3, False], ["incref", 0, 1], ["incref", 3, 1], ["incref", 0, 3], ["remove", 0, 0],
      ["rollback", 5], ["remove", 3, 3], ["rollback", 6], ["rollback", 2]],
+    # second reference to an active blocker after a matching package was forced in: must report it (fix 0a3cc5d)
+    [["incref", 0, 0], ["add", 0, 0, True], ["incref", 1, 0], ["rollback", 2], ["rollback", 0]],
     # same blocker twice for one choice point
     [["add", 0, 0, False], ["incref", 0, 1], ["incref", 0, 1], ["decref", 0, 1], ["rollback", 3], ["remove", 0, 0], ["rollback", 1]],
     # replace displacing a package that carries blockers; refused add; hard references counted
